@@ -411,7 +411,7 @@ pipe_entry("unit_bitor", PP + "unit_pipe.rs", r"impl<T,\s*Rhs>\s+BitOr<Rhs>\s+fo
 # unfolding of insert_loop.  usize::MAX (the link poison of remove_node) is printed as the model's `poison`.
 MED_RS = F + "median.rs"
 MED_IMPL = r"impl<T,\s*const N: usize>\s+Median<T,\s*N>\s+where\s+T:\s*Clone\s*\+\s*PartialOrd"
-MED_IMPL_ACC = r"impl<T,\s*const N: usize>\s+Median<T,\s*N>\s+where\s+T:\s*Clone,?\s*\{"
+MED_IMPL_ACC = r"impl<T,\s*const N: usize>\s+Median<T,\s*N>\s+where\s+T:\s*Clone,?(?=\s*\{)"
 MED_FILTER = r"impl<T,\s*const N: usize>\s+Filter<T>\s+for\s+Median<T,\s*N>"
 def nat(name): return ("Nat", name)
 def buf(name): return ("obj", "buf", name)
@@ -420,7 +420,7 @@ MED_METHODS = {k: (MED_RS, MED_IMPL, ps) for k, ps in {
     "should_insert": ["value", "current", "index"], "move_head_forward": [], "remove_node": [], "initialize_median": [], "insert_value": ["value"],
     "insert": ["value", "current"], "shift_median": ["index", "current"], "update_head": ["value"], "adjust_median_for_even_length": [],
     "increment_cursor": [], "median_unchecked": []}.items()}
-MED_METHODS.update({k: (MED_RS, MED_IMPL_ACC.replace(r"\s*\{", ""), []) for k in ("len", "median", "min", "max")})
+MED_METHODS.update({k: (MED_RS, MED_IMPL_ACC, []) for k in ("len", "median", "min", "max")})
 MED_REC = "{| buffer := {self.state.buffer}; cursor := {self.state.cursor}; head := {self.state.head}; median := {self.state.median} |}"
 MED_S = "{| buffer := b; cursor := c; head := h; median := m |}"
 MED_VARS = "(b : list (node T)) (c h m : nat)"
@@ -465,7 +465,7 @@ entry("C02", "median_insert_loop_step", cls="Median", file=MED_RS, impl=MED_IMPL
 med_entry("C02", "median_filter", "filter", "Median.filter (aleb A) " + MED_S + " x", "Some (" + MED_REC + ", {ret})", impl=MED_FILTER, params={"input": v("x")},
           vars="(b : list (node T)) (c h m : nat) (x : T)")
 # accessors (C17)
-ACC_IMPL = MED_IMPL_ACC.replace(r"\s*\{", "")
+ACC_IMPL = MED_IMPL_ACC
 for acc in ("median", "min", "max"):
     med_entry("C17", "median_acc_" + acc, acc, "acc_%s %s" % (acc, MED_S), "Some {ret}", impl=ACC_IMPL)
 
@@ -603,6 +603,174 @@ entry("C04", "bounds_filter", file=F + "bounds.rs", impl=r"impl<T,\s*const N: us
                   vars="(n maxu : N) (smin smax : st T) (x : T)")],
       rhs="Some (({self.state.min}, {self.state.max}), ({ret.0}, {ret.1}))")
 
+# ---- C10 : source adapters ---------------------------------------------------------------------------------
+# Inner sources are ABSTRACT states of the model (`i : src`): every pull of one is a hypothesis `pull false fuel i = Some (o, i')`
+# with both outcomes (Some v / None) as separate paths; the adapter's own counters and phases have the concrete shapes the
+# model matches on (0 / S c, the phase constructors), one lemma per shape and path.  `Repeat` is translated from its own
+# source (Take<Constant<T>>), also where it is built inside another adapter through Repeat::new.  Self-recursion of the
+# constant pad consumes model fuel.  Skip's while loop is unrolled once and summarised by skip_loop (Proofs/Translate.v).
+SRCD = REPO + "/crates/sources/src/"
+SRC_HDR = "forall (T := Z) (A := Zar) (f : nat)"
+SRC_PRE = "Arguments pull old !fuel !s.\n"     # cbn must not unfold a pull of an ABSTRACT inner source
+SRC_SCRIPT = ("intros. rewrite ?pull_skip. cbn [pull peek cached obind fst snd skip_loop]. "
+              "repeat (match goal with H : _ = _ |- _ => rewrite H; cbn [pull peek cached obind fst snd skip_loop] end). reflexivity.")
+def src(name): return ("obj", "src", name)
+def fuel_text(k): return "f" if k == 0 else "(S %s)" % fuel_text(k - 1)
+def prim_src_source(sym, o, args):
+    lvl = sym.case_fuel - 1 - sym.depth
+    if lvl < 0: raise Unsupported("recursion deeper than the fuel of the lemma")
+    k = sym.counter + 1; v_, i_ = "v%d" % k, "i%d" % k
+    call = "pull false %s %s" % (fuel_text(lvl), o[2])
+    if sym.decide("%s = Some (Some %s, %s)" % (call, v_, i_), "%s = Some (None, %s)" % (call, i_)):
+        sym.fresh(); sym.dyn_vars += [(v_, "Z"), (i_, "src")]
+        return ("opt", T(("var", v_))), src(i_)
+    sym.fresh(); sym.dyn_vars += [(i_, "src")]
+    return ("opt", None), src(i_)
+def liter(known, rest): return ("obj", "liter", (tuple(known), rest))
+def prim_liter_next(sym, o, args):
+    known, rest = o[2]
+    if known: return ("opt", known[0]), liter(known[1:], rest)
+    if rest == "[]": return ("opt", None), o
+    raise Unsupported("iterator of unknown shape")
+SRCP = {("src", "source"): prim_src_source, ("liter", "next"): prim_liter_next}
+def constant_obj(val): return sub("SrcConstant", value=val)
+def take_obj(inner, cnt): return sub("SrcTake", inner=inner, count=nat(cnt))
+def repeat_obj(val, cnt): return sub("SrcRepeat", inner=take_obj(constant_obj(val), cnt))
+SRC_NEW = {"Repeat::new": (SRCD + "repeat.rs", r"impl<T>\s+Repeat<T>", "new", ["value", "count"], "SrcRepeat"),
+           "Take::new": (SRCD + "take.rs", r"impl<S>\s+Take<S>", "new", ["inner", "count"], "SrcTake"),
+           "Constant::new": (SRCD + "constant.rs", r"impl<T>\s+Constant<T>", "new", ["value"], "SrcConstant")}
+def rep_parts(r):
+    """(value text, count text) of a symbolic Repeat"""
+    from rs2coq import coq_V
+    tk = r[1]["inner"][1]
+    return coq_V(tk["inner"][1]["value"]), as_nat(tk["count"])
+def out_state(ret, state_text):
+    from rs2coq import coq_V
+    return "Some (%s, %s)" % (coq_V(ret), state_text)
+def src_entry(name, file_, impl, fn, cases, render, cls=None, fuel=1, subs=None, lhs_fn="pull false", **kw):
+    for c_ in cases: c_.setdefault("vars", ""); c_["fuel"] = fuel
+    entry("C10", name, cls=cls, file=SRCD + file_, impl=impl, fn=fn, params=kw.pop("params", {}), header=SRC_HDR, script=SRC_SCRIPT, prims=SRCP, split=True,
+          imports="Model.Sources Proofs.Translate", subs=subs or [], fns=SRC_NEW, cases=cases, render=render, rhs="", preamble=SRC_PRE, **kw)
+FU = lambda k: fuel_text(k)
+def P(k, state): return "pull false %s %s" % (FU(k), state)
+# leaves
+src_entry("src_constant", "constant.rs", r"impl<T>\s+Source\s+for\s+Constant<T>", "source", cls="SrcConstant",
+          cases=[dict(self=st(value=v("c")), lhs=P(1, "(Constant c)"), vars="(c : Z)")], render=lambda sym, s_, r, c: out_state(r, "(Constant c)"))
+src_entry("src_take", "take.rs", r"impl<S,\s*T>\s+Source\s+for\s+Take<S>", "source", cls="SrcTake",
+          cases=[dict(self=st(inner=src("i"), count=nat("0")), lhs=P(1, "(Take i 0)"), vars="(i : src)"),
+                 dict(self=st(inner=src("i"), count=nat("(S c)")), lhs=P(1, "(Take i (S c))"), vars="(i : src) (c : nat)")],
+          render=lambda sym, s_, r, c: out_state(r, "(Take %s %s)" % (s_[1]["inner"][2], as_nat(s_[1]["count"]))))
+src_entry("src_repeat", "repeat.rs", r"impl<T>\s+Source\s+for\s+Repeat<T>", "source", cls="SrcRepeat", subs=["SrcTake", "SrcConstant"],
+          cases=[dict(self=st(inner=take_obj(constant_obj(v("c")), "0")), lhs=P(1, "(Repeat c 0)"), vars="(c : Z)"),
+                 dict(self=st(inner=take_obj(constant_obj(v("c")), "(S n)")), lhs=P(1, "(Repeat c (S n))"), vars="(c : Z) (n : nat)")],
+          render=lambda sym, s_, r, c: out_state(r, "(Repeat %s %s)" % rep_parts(s_)))
+src_entry("src_increment", "increment.rs", r"impl<T>\s+Source\s+for\s+Increment<T>", "source",
+          cases=[dict(self=st(state=v("s0"), interval=v("d")), lhs=P(1, "(Increment s0 d)"), vars="(s0 d : Z)")],
+          render=lambda sym, s_, r, c: out_state(r, "(Increment %s d)" % coq_T(s_[1]["state"][1])))
+src_entry("src_from_iter", "from_iter.rs", r"impl<I>\s+Source\s+for\s+FromIter<I>", "source",
+          cases=[dict(self=st(iter=liter([], "[]")), lhs=P(1, "(FromList [])")),
+                 dict(self=st(iter=liter([v("x")], "r")), lhs=P(1, "(FromList (x :: r))"), vars="(x : Z) (r : list Z)")],
+          render=lambda sym, s_, r, c: out_state(r, "(FromList %s)" % s_[1]["iter"][2][1]))
+entry("C10", "src_into_iter_next", cls="SrcIntoIter", file=SRCD + "into_iter.rs", impl=r"impl<S,\s*T>\s+Iterator\s+for\s+IntoIter<S>", fn="next", params={}, header=SRC_HDR, script=SRC_SCRIPT,
+      prims=SRCP, split=True, imports="Model.Sources Proofs.Translate", cases=[dict(self=st(source=src("i")), lhs=P(1, "(RoundTrip i)"), vars="(i : src)", fuel=1)], rhs="",
+      render=lambda sym, s_, r, c: out_state(r, "(RoundTrip %s)" % s_[1]["source"][2]))
+src_entry("src_round_trip", "from_iter.rs", r"impl<I>\s+Source\s+for\s+FromIter<I>", "source", subs=["SrcIntoIter"],
+          cases=[dict(self=st(iter=sub("SrcIntoIter", source=src("i"))), lhs=P(1, "(RoundTrip i)"), vars="(i : src)")],
+          render=lambda sym, s_, r, c: out_state(r, "(RoundTrip %s)" % s_[1]["iter"][1]["source"][2]))
+# adapters over one or two inner sources
+src_entry("src_chain", "chain.rs", r"impl<F,\s*B,\s*T>\s+Source\s+for\s+Chain<F,\s*B>", "source",
+          cases=[dict(self=st(front=src("a"), back=src("b"), state=("enum", "Front")), lhs=P(1, "(Chain a b false)"), vars="(a b : src)"),
+                 dict(self=st(front=src("a"), back=src("b"), state=("enum", "Back")), lhs=P(1, "(Chain a b true)"), vars="(a b : src)")],
+          render=lambda sym, s_, r, c: out_state(r, "(Chain %s %s %s)" % (s_[1]["front"][2], s_[1]["back"][2], "true" if s_[1]["state"] == ("enum", "Back") else "false")))
+src_entry("src_cycle", "cycle.rs", r"impl<S,\s*T>\s+Source\s+for\s+Cycle<S>", "source",
+          cases=[dict(self=st(orig=src("o"), inner=src("i")), lhs=P(1, "(Cycle o i)"), vars="(o i : src)")],
+          render=lambda sym, s_, r, c: out_state(r, "(Cycle %s %s)" % (s_[1]["orig"][2], s_[1]["inner"][2])))
+def skip_while(sym, env, e):
+    c = sym.ev(e[1], env)
+    if c[0] != "B" or c[1] not in (("btrue",), ("bfalse",)): raise Unsupported("loop condition did not evaluate to a known boolean")
+    if c[1] == ("btrue",):
+        sym.block(e[2], env)
+        selfv = env.get("self")
+        cnt, inner = as_nat(selfv[1]["count"]), selfv[1]["inner"][2]
+        i1 = "i%d" % sym.fresh(); sym.dyn_vars.append((i1, "src"))
+        sym.dyn_hyps.append("skip_loop (pull false %s) %s %s = Some %s" % (fuel_text(sym.case_fuel - 1), cnt, inner, i1))
+        selfv = sym.updated(selfv, ["inner"], src(i1)); selfv = sym.updated(selfv, ["count"], ("dead",))
+        env.set_existing("self", selfv)
+    return ("unit",)
+src_entry("src_skip", "skip.rs", r"impl<S,\s*T>\s+Source\s+for\s+Skip<S>", "source", while_handler=skip_while,
+          cases=[dict(self=st(inner=src("i"), count=nat("0")), lhs=P(1, "(Skip i 0)"), vars="(i : src)"),
+                 dict(self=st(inner=src("i"), count=nat("(S c)")), lhs=P(1, "(Skip i (S c))"), vars="(i : src) (c : nat)")],
+          render=lambda sym, s_, r, c: out_state(r, "(Skip %s %s)" % (s_[1]["inner"][2], as_nat(s_[1]["count"]))))
+src_entry("src_cache", "cache.rs", r"impl<T,\s*U>\s+Source\s+for\s+Cache<T,\s*U>", "source",
+          cases=[dict(self=st(state=st(inner=src("i"), cached=co)), lhs=P(1, "(Cache i %s)" % ct), vars="(i : src)" + cv) for co, ct, cv in ((NONE, "None", ""), (some(v("k")), "(Some k)", " (k : Z)"))],
+          render=lambda sym, s_, r, c: out_state(r, "(Cache %s %s)" % (s_[1]["state"][1]["inner"][2], _R.coq_V(s_[1]["state"][1]["cached"]))))
+entry("C10", "src_cache_cached", file=SRCD + "cache.rs", impl=r"impl<T,\s*U>\s+Cache<T,\s*U>", fn="cached", params={}, header=SRC_HDR, script=SRC_SCRIPT, imports="Model.Sources Proofs.Translate",
+      cases=[dict(self=st(state=st(inner=src("i"), cached=co)), lhs="cached (Cache i %s)" % ct, vars="(i : src)" + cv) for co, ct, cv in ((NONE, "None", ""), (some(v("k")), "(Some k)", " (k : Z)"))],
+      rhs="Some {ret}")
+PEEKS = ((NONE, "None", ""), (some(NONE), "(Some None)", ""), (some(some(v("k"))), "(Some (Some k))", " (k : Z)"))
+peek_render = lambda sym, s_, r, c: out_state(r, "(Peek %s %s)" % (s_[1]["state"][1]["inner"][2], _R.coq_V(s_[1]["state"][1]["peeked"])))
+src_entry("src_peek", "peek.rs", r"impl<T,\s*U>\s+Source\s+for\s+Peek<T,\s*U>", "source",
+          cases=[dict(self=st(state=st(inner=src("i"), peeked=po)), lhs=P(1, "(Peek i %s)" % pt), vars="(i : src)" + pv) for po, pt, pv in PEEKS], render=peek_render)
+src_entry("src_peek_peek", "peek.rs", r"impl<T,\s*U>\s+Peek<T,\s*U>\s+where", "peek",
+          cases=[dict(self=st(state=st(inner=src("i"), peeked=po)), lhs="peek false %s (Peek i %s)" % (FU(0), pt), vars="(i : src)" + pv) for po, pt, pv in PEEKS], render=peek_render, fuel=1)
+# constant padding: Repeat front / back built from the same value; phases; self recursion (fuel 3)
+def padc_self(ph, fc, bc): return st(inner=src("i"), front=repeat_obj(v("c"), fc), back=repeat_obj(v("c"), bc), state=("enum", ph))
+PH = {"Front": "CFront", "Inner": "CInner", "Back": "CBack"}
+def padc_render(sym, s_, r, c):
+    d = s_[1]
+    return out_state(r, "(PadConst %s c %s %s %s)" % (d["inner"][2], rep_parts(d["front"])[1], rep_parts(d["back"])[1], PH[d["state"][1]]))
+src_entry("src_pad_constant", "pad/constant.rs", r"impl<S,\s*T>\s+Source\s+for\s+Pad<S,\s*T>", "source", cls="SrcPadC", recursive=True, subs=["SrcRepeat", "SrcTake", "SrcConstant"], fuel=3,
+          cases=[dict(self=padc_self(ph, fc, bc), lhs=P(3, "(PadConst i c %s %s %s)" % (fc, bc, PH[ph])), vars="(i : src) (c : Z) (nf nb : nat)")
+                 for ph in ("Front", "Inner", "Back") for fc in ("0", "(S nf)") for bc in ("0", "(S nb)")], render=padc_render)
+# edge padding
+def EV(name, *payload): return ("variant", name, list(payload))
+def pade_self(state, cnt): return st(inner=src("i"), count=nat(cnt), state=state)
+def pade_phase(v_):
+    from rs2coq import coq_V
+    if v_[0] == "enum": return v_[1]
+    if v_[1] == "Front": return "(Front %s %s)" % (coq_V(v_[2][0]), rep_parts(v_[2][1])[1])
+    if v_[1] == "Inner": return "(Inner %s)" % coq_V(v_[2][0])
+    if v_[1] == "Back": return "(Back %s %s)" % rep_parts(v_[2][0])
+    raise Unsupported("edge pad phase %s" % v_[1])
+def pade_render(sym, s_, r, c):
+    d = s_[1]
+    return out_state(r, "(PadEdge %s %s %s)" % (d["inner"][2], as_nat(d["count"]), pade_phase(d["state"])))
+PADE_STATES = [(("enum", "Before"), "Before"), (EV("Front", v("a"), repeat_obj(v("a"), "0")), "(Front a 0)"), (EV("Front", v("a"), repeat_obj(v("a"), "(S r)")), "(Front a (S r))"),
+               (EV("Inner", v("a")), "(Inner a)"), (EV("Back", repeat_obj(v("a"), "0")), "(Back a 0)"), (EV("Back", repeat_obj(v("a"), "(S r)")), "(Back a (S r))"), (("enum", "After"), "After")]
+src_entry("src_pad_edge", "pad/edge.rs", r"impl<S,\s*T>\s+Source\s+for\s+Pad<S,\s*T>", "source", subs=["SrcRepeat", "SrcTake", "SrcConstant"],
+          cases=[dict(self=pade_self(stv, cnt), lhs=P(1, "(PadEdge i %s %s)" % (cnt, stt)), vars="(i : src) (a : Z) (r cn : nat)") for stv, stt in PADE_STATES for cnt in ("0", "(S cn)")],
+          render=pade_render)
+
+# constructors: the state a user-level expression starts in is the model's `init`
+def state_only(txt): return txt[txt.index(", ") + 2:-1] if txt.startswith("Some (") else txt
+def ctor_entry(name, file_, impl, fn, params, lhs, vars_, render, **kw):
+    entry("C10", name, file=SRCD + file_, impl=impl, fn=fn, params=params, header="forall (T := Z) (A := Zar)", imports="Model.Sources Proofs.Translate", fns=SRC_NEW,
+          script="intros. cbn [init]. reflexivity.", cases=[dict(self=("unit",), lhs=lhs, vars=vars_)], rhs="",
+          render=lambda sym, s_, r, c: state_only(render(sym, r, ("opt", None), c)), **kw)
+ctor_entry("new_chain", "chain.rs", r"impl<F,\s*B>\s+Chain<F,\s*B>", "new", {"front": src("(init a)"), "back": src("(init b)")}, "init (EChain a b)", "(a b : expr)",
+           lambda sym, s_, r, c: out_state(r, "(Chain %s %s %s)" % (s_[1]["front"][2], s_[1]["back"][2], "true" if s_[1]["state"] == ("enum", "Back") else "false")))
+ctor_entry("new_take", "take.rs", r"impl<S>\s+Take<S>", "new", {"inner": src("(init e)"), "count": nat("n")}, "init (ETake e n)", "(e : expr) (n : nat)",
+           lambda sym, s_, r, c: out_state(r, "(Take %s %s)" % (s_[1]["inner"][2], as_nat(s_[1]["count"]))))
+ctor_entry("new_skip", "skip.rs", r"impl<S>\s+Skip<S>", "new", {"inner": src("(init e)"), "count": nat("n")}, "init (ESkip e n)", "(e : expr) (n : nat)",
+           lambda sym, s_, r, c: out_state(r, "(Skip %s %s)" % (s_[1]["inner"][2], as_nat(s_[1]["count"]))))
+ctor_entry("new_cycle", "cycle.rs", r"impl<S>\s+Cycle<S>", "new", {"orig": src("(init e)")}, "init (ECycle e)", "(e : expr)",
+           lambda sym, s_, r, c: out_state(r, "(Cycle %s %s)" % (s_[1]["orig"][2], s_[1]["inner"][2])))
+ctor_entry("new_constant", "constant.rs", r"impl<T>\s+Constant<T>", "new", {"value": v("c")}, "init (EConstant c)", "(c : Z)", lambda sym, s_, r, c: out_state(r, "(Constant %s)" % _R.coq_V(s_[1]["value"])))
+ctor_entry("new_repeat", "repeat.rs", r"impl<T>\s+Repeat<T>", "new", {"value": v("c"), "count": nat("n")}, "init (ERepeat c n)", "(c : Z) (n : nat)", lambda sym, s_, r, c: out_state(r, "(Repeat %s %s)" % rep_parts(s_)))
+ctor_entry("new_increment", "increment.rs", r"impl<T>\s+Increment<T>", "new", {"initial": v("a"), "interval": v("d")}, "init (EIncrement a d)", "(a d : Z)",
+           lambda sym, s_, r, c: out_state(r, "(Increment %s %s)" % (_R.coq_V(s_[1]["state"]), _R.coq_V(s_[1]["interval"]))))
+def padc_render2(sym, s_, r, c):
+    d = s_[1]
+    if rep_parts(d["front"])[0] != rep_parts(d["back"])[0]: raise Unsupported("front and back padding values differ")
+    return out_state(r, "(PadConst %s %s %s %s %s)" % (d["inner"][2], rep_parts(d["front"])[0], rep_parts(d["front"])[1], rep_parts(d["back"])[1], PH[d["state"][1]]))
+ctor_entry("new_pad_constant", "pad/constant.rs", r"impl<S,\s*T>\s+Pad<S,\s*T>\s+where\s+T:\s*Clone,?\s*(?=\{)", "new", {"inner": src("(init e)"), "value": v("c"), "count": nat("n")},
+           "init (EPadConst e c n)", "(e : expr) (c : Z) (n : nat)", padc_render2)
+ctor_entry("new_pad_edge", "pad/edge.rs", r"impl<S,\s*T>\s+Pad<S,\s*T>\s+where\s+S:\s*Source<Output = T>,\s*T:\s*Clone,?\s*(?=\{)", "new", {"inner": src("(init e)"), "count": nat("n")},
+           "init (EPadEdge e n)", "(e : expr) (n : nat)", pade_render)
+ctor_entry("new_peek", "peek.rs", r"impl<T,\s*U>\s+From<T>\s+for\s+Peek<T,\s*U>", "from", {"inner": src("(init e)")}, "init (EPeek e)", "(e : expr)", peek_render)
+ctor_entry("new_cache", "cache.rs", r"impl<T,\s*U>\s+From<T>\s+for\s+Cache<T,\s*U>", "from", {"inner": src("(init e)")}, "init (ECache e)", "(e : expr)",
+           lambda sym, s_, r, c: out_state(r, "(Cache %s %s)" % (s_[1]["state"][1]["inner"][2], _R.coq_V(s_[1]["state"][1]["cached"]))))
+
 # ---- constants compiled into macro invocations ---------------------------------------------------------
 CONSTS = {"C18": [dict(name="hampel_factor", file=F + "hampel.rs", regex=r"impl_hampel_filter!\(\s*(f32|f64)\s*=>\s*([0-9][0-9_]*\.[0-9_]*)\s*\)", expect=2,
                        lemma="From Coq Require Import QArith Qcanon.\nFrom Signalo Require Import Model.Hampel.\nLemma hampel_factor_%(k)s : Q2Qc (%(q)s) = mad_factor.\nProof. apply Qc_is_canon. reflexivity. Qed.\n")]}
@@ -617,16 +785,18 @@ def run_case(ent, case, body_ast, params_txt, assume=None):
             if se["name"] == sname: subs[sname] = (parse_body(sbody), list(se["params"].keys()))
             if se.get("cls") == sname: subs[(sname, se["fn"])] = (parse_body(sbody), list(se["params"].keys()))
     if ent.get("cls"):      # calls of the receiver's own (translated) methods
-        for se in (e for es in ENTRIES.values() for e in es if e.get("cls") == ent["cls"] and e["name"] != ent["name"]):
+        for se in (e for es in ENTRIES.values() for e in es if e.get("cls") == ent["cls"] and (e["name"] != ent["name"] or ent.get("recursive"))):
             sbody, _ = find_method(open(se["file"]).read(), se["impl"], se["fn"])
             subs[(ent["cls"], se["fn"])] = (parse_body(sbody), list(se["params"].keys()))
     prims = dict(ent.get("prims") or {}); prims.update(case.get("prims") or {})
     sym = Sym(prims=prims, divmode=ent.get("divmode", "total"), subs=subs)
-    for fname, (ffile, fimpl, ffn, fparams) in (ent.get("fns") or {}).items():
+    for fname, fd in (ent.get("fns") or {}).items():
+        ffile, fimpl, ffn, fparams = fd[:4]
         fbody, _ = find_method(open(ffile).read(), fimpl, ffn)
-        sym.fns[fname] = (parse_body(fbody), fparams)
+        sym.fns[fname] = (parse_body(fbody), fparams) + tuple(fd[4:5])
     sym.world = ent.get("world")
     sym.case = case
+    sym.case_fuel = case.get("fuel", 1)
     for mname, (mfile, mimpl, mparams) in (ent.get("methods") or {}).items():      # helper methods of the receiver's own class
         mbody, _ = find_method(open(mfile).read(), mimpl, mname)
         sym.subs[(ent["cls"], mname)] = (parse_body(mbody), mparams)
@@ -707,7 +877,7 @@ def binders(vs):
 
 
 def lemma_text(ent, idx, case, sym, selfv, ret):
-    rhs = fill2(case.get("rhs", ent["rhs"]), selfv, ret, sym)
+    rhs = ent["render"](sym, selfv, ret, case) if (ent.get("render") and "rhs" not in case) else fill2(case.get("rhs", ent["rhs"]), selfv, ret, sym)
     dyn = "".join(" (%s : %s)" % nv for nv in sym.dyn_vars)
     binder = "%s%s%s, " % (ent.get("header", "forall (T : Type) (A : arith T)"), binders(case["vars"]), dyn)
     name = "%s_case%s" % (ent["name"], idx)
@@ -748,7 +918,7 @@ def translate_entry(ent):
             raise Unsupported("parameter `%s` not found in the signature (%s)" % (pname, " ".join(params_txt.split())))
     ast = parse_body(body_txt)
     text = ["(* generated by translator/bodies.py from %s (%s::%s) -- do not edit *)\n" % (ent["file"], ent["impl"], ent["fn"]),
-            "From Coq Require Import NArith List.\nImport ListNotations.\nFrom Signalo Require Import Base.Arith Base.Opt Base.Machine Model.Generic %s.\n" % ent.get("imports", "")]
+            "From Coq Require Import NArith List.\nImport ListNotations.\nFrom Signalo Require Import Base.Arith Base.Opt Base.Machine Model.Generic %s.\n%s" % (ent.get("imports", ""), ent.get("preamble", ""))]
     count = 0
     for i, case in enumerate(ent["cases"]):
         if not ent.get("split"):
